@@ -6,6 +6,11 @@ from . import pdbio
 IC = {" ": " ", "a": "A", "b": "B"}
 
 
+OTHER_RECORDS = ["REMARK 300 ignorable record", "ENDMDL", "ANISOU    1  N   ALA A   1     2406   1892   1614    198    519   -328",
+                 "CONECT    1    2", "SIGATM    1  N   ALA A   1       0.010   0.010   0.010  0.00  0.00", "END", "MASTER        0",
+                 "SEQRES   1 A    2  ALA SER", "LINK", "ATOMS", "HETNAM     HOH WATER", "TERM", "MODELS"]
+
+
 def concretise(seq):
     """Returns (text, line_of_record) - one PDB line per abstract record; coordinates identify records."""
     lines = []
@@ -16,7 +21,8 @@ def concretise(seq):
         elif k == "MODEL":
             lines.append("MODEL     %4d" % r["m"])
         elif k == "OTHER":
-            lines.append("REMARK 300 ignorable record %d" % i)
+            # any record type other than ATOM / HETATM / MODEL / TER, also those that look structural
+            lines.append(OTHER_RECORDS[(i + len(seq)) % len(OTHER_RECORDS)])
         else:
             rn = {"AA": "ALA", "AB": "SER"}.get(r["rn"], "HOH")
             nm = r["nm"]
